@@ -2,6 +2,7 @@
 import ast, itertools
 from ..core import obligation, AnalysisError
 from .common import *
+from ..core import Fn
 
 
 def cursor_loops(fn):
@@ -123,12 +124,15 @@ def c02_1(ctx):
     ctx.at_least(2, n, 'merge loops')
 
 
+RANGE_OK = set()   # further functions of _sort proved (by the same rule, coinductively) to return only -1/0/1
+
+
 def _range_ok(fn, e, names_ok, depth=0):
     if const(e) in (-1, 0, 1) and isinstance(const(e), int) and not isinstance(const(e), bool):
         return True
     if isinstance(e, ast.IfExp):
         return _range_ok(fn, e.body, names_ok) and _range_ok(fn, e.orelse, names_ok)
-    if isinstance(e, ast.Call) and call_name(e) in ('cmp', 'cmparr') and isinstance(e.func, ast.Name):
+    if isinstance(e, ast.Call) and isinstance(e.func, ast.Name) and (e.func.id in ('cmp', 'cmparr') or e.func.id in RANGE_OK):
         return True
     if isinstance(e, ast.Name) and e.id in names_ok:
         return True
@@ -139,7 +143,15 @@ def _range_ok(fn, e, names_ok, depth=0):
             'the trichotomy used by the merge loops (and by Cmp.__lt__/__gt__) needs cmp to return only -1, 0 or 1',
             axioms=('A1',))
 def c02_2(ctx):
-    for name in ('cmp', 'cmparr'):
+    RANGE_OK.clear()
+    names = ['cmp', 'cmparr']
+    # helpers of the same module called in return position are checked by the same rule (cycle assumption is sound: greatest fixpoint)
+    for name in list(names):
+        for r0 in returns_of(ctx.repo.fn('_sort:%s' % name).node):
+            if r0.value is not None and isinstance(r0.value, ast.Call) and isinstance(r0.value.func, ast.Name) and ctx.repo.has_fn('_sort:%s' % r0.value.func.id) and r0.value.func.id not in names:
+                names.append(r0.value.func.id)
+                RANGE_OK.add(r0.value.func.id)
+    for name in names:
         fn = ctx.repo.fn('_sort:%s' % name)
         # names that only ever hold values in range
         assigned = {}
@@ -432,3 +444,72 @@ def c02_7(ctx):
     r = ctx.repo
     fns = [r.fn('_dictable:dictable.%s' % m) for m in ('join', 'xor', '_listby')]
     purity(ctx, fns)
+
+
+def cmparr_lexicographic(ctx):
+    fn = ctx.repo.fn('_sort:cmparr')
+    loops = [s for s in fn.body if isinstance(s, (ast.For, ast.While))]
+    ctx.need(len(loops) == 1, 'element loop of cmparr not found')
+    loop = loops[0]
+    ctx.need(isinstance(loop, ast.For) and isinstance(loop.iter, ast.Call) and call_name(loop.iter) == 'zip' and [U(a) for a in loop.iter.args] == fn.params[:2],
+             'cmparr does not iterate zip(x, y)')
+    # names holding a cmp outcome
+    outcome = set()
+    comparator = None
+    for n in ast.walk(loop):
+        if isinstance(n, ast.Assign) and isinstance(n.value, ast.Call) and isinstance(n.value.func, ast.Name) and isinstance(n.targets[0], ast.Name):
+            g = ctx.repo.resolve_name(fn.mod, n.value.func.id)
+            if isinstance(g, Fn):
+                outcome.add(n.targets[0].id)
+                comparator = g
+    for n in ast.walk(loop):
+        if isinstance(n, ast.Call) and isinstance(n.func, ast.Name) and comparator is None:
+            g = ctx.repo.resolve_name(fn.mod, n.func.id)
+            if isinstance(g, Fn):
+                comparator = g
+    ctx.need(comparator is not None, 'cmparr compares elements with no repository function')
+    pm = parent_map(loop)
+    for n in ast.walk(loop):
+        if isinstance(n, ast.If):
+            ctx.count(1, fn.where(n))
+            nm = names_in(n.test)
+            calls = [c for c in ast.walk(n.test) if isinstance(c, ast.Call)]
+            only_outcome = nm and nm <= outcome and not calls
+            direct = calls and all(isinstance(c.func, ast.Name) and isinstance(ctx.repo.resolve_name(fn.mod, c.func.id), Fn) for c in calls) and not (nm - outcome - {U(a) for c in calls for a in c.args} - {c.func.id for c in calls} - set(U(loop.target).replace('(', '').replace(')', '').replace(' ', '').split(',')))
+            if not (only_outcome or (direct and not any(isinstance(x, ast.Compare) and isinstance(x.ops[0], (ast.Is, ast.IsNot)) for x in ast.walk(n.test)) and not any(isinstance(x, ast.Compare) and isinstance(x.ops[0], ast.Eq) and not isinstance(x.left, ast.Call) and not isinstance(x.comparators[0], ast.Call) and const(x.comparators[0]) is None for x in ast.walk(n.test)))):
+                ctx.fail(fn, n, 'cmparr decides `%s` with a relation other than the cmp outcome: pairs that == separates but cmp ranks equal (distinct NaN objects), or that == equates but cmp separates (1 and True), are handled inconsistently' % U(n.test))
+        if isinstance(n, ast.Return):
+            ctx.count(1, fn.where(n))
+            v = n.value
+            guard = pm.get(n)
+            nonzero = False
+            if isinstance(v, ast.Name) and v.id in outcome and isinstance(guard, ast.If) and N(guard.test) in (NS('%s != 0' % v.id), v.id) and n in guard.body:
+                nonzero = True
+            if const(v) in (-1, 1):
+                nonzero = True
+            if not nonzero:
+                ctx.fail(fn, n, 'cmparr returns `%s` from inside the element loop without knowing it is non-zero: a pair that cmp ranks equal ends the comparison before the later elements are compared' % U(v),
+                         witness='cmp((nan1, 1), (nan2, 2)) with distinct NaN objects')
+    # after the loop: equal
+    tail = [s for s in fn.body[fn.body.index(loop) + 1:] if isinstance(s, ast.Return)]
+    ctx.count(1)
+    if not tail or not (const(tail[-1].value) == 0 or (isinstance(tail[-1].value, ast.Name) and tail[-1].value.id in outcome)):
+        ctx.fail(fn, tail[-1] if tail else fn.node, 'cmparr does not return 0 when every pair compares equal')
+    # per-element normalisation
+    ctx.count(1, comparator.where())
+    norm = [s for s in comparator.body if isinstance(s, ast.Assign) and isinstance(s.value, ast.Call) and call_name(s.value) == 'as_primitive']
+    px, py = comparator.params[:2]
+    if not norm or N(norm[0].targets[0]) != '(%s, %s)' % (px, py) or N(norm[0].value) != 'as_primitive([%s, %s])' % (px, py):
+        ctx.fail(fn, loop, 'elements are compared with %s, which does not normalise its operands with as_primitive: numpy scalars / dates inside dict values or arrays are not compared like top-level operands' % comparator.name,
+                 witness='cmp(dict(a=np.int64(2)), dict(a=2.0)) != 0')
+    top = ctx.repo.fn('_sort:cmp')
+    norm = [s for s in top.body if isinstance(s, ast.Assign) and isinstance(s.value, ast.Call) and call_name(s.value) == 'as_primitive']
+    if not norm:
+        ctx.fail(top, top.node, 'cmp no longer normalises its operands with as_primitive')
+
+
+@obligation('C02.8', 'PATH lexicographic', '_sort:cmparr (key tuples of join/xor are compared with it)',
+            'multi-column keys are equal only if every column is: cmparr may stop only at a pair whose cmp is non-zero and must decide with the cmp outcome alone, else (nan, 1) matches (nan, 2) for distinct NaN objects',
+            axioms=('A1', 'A5'))
+def c02_8(ctx):
+    cmparr_lexicographic(ctx)
